@@ -1,4 +1,145 @@
-import NssVerif.Data.Tables
+import NssVerif.Props.C04
+import NssVerif.Props.C05
+import NssVerif.Lemmas.Slice
+import Mathlib.Tactic.IntervalCases
+
+/-!
+# C18 — Gridded lookup tables: exact slicing, bracketing interpolation = piecewise-linear, sound shipped data
+
+* the shipped-data clause is proved for *every node of every shipped table* by kernel evaluation over the
+  modules regenerated from /repo (`Data/Tables.lean`), lifted to real numbers;
+* the slicing and row-interpolation clauses are theorems about `Model.Interp` at ℝ for all grids/rows;
+* the file round trip (HDF5/FITS) is third-party I/O: explored on the real code by the harness, not proved
+  (partial; see DESIGN.md).
+* not yet proved here: "smallest reachable tau energy above the tau mass" (checked numerically on the shipped
+  tables on every run by the harness).
+-/
 namespace C18
-theorem placeholder_dims : Gen.Tab3.cdfRows.length = Gen.Tab3.nE * Gen.Tab3.nB := Data.t3_dims.1
+open Model.Interp Model.Taus Model.TabLoad TablesReal Bilinear VecInterp CdfSample Slice ScalarReal
+
+/-! ### every shipped table meets the samplers' preconditions -/
+
+/-- all versions: strictly increasing axes, every CDF row non-decreasing from exactly 0 to 1 ± 2⁻⁵⁰ (< 1e-15),
+fraction axis ending at exactly 1, table dimensions consistent with the axes -/
+theorem shipped_cdf_tables_sound :
+    CdfTableOK (cdf1 : CdfTable ℝ) ∧ CdfTableOK (cdf2 : CdfTable ℝ) ∧ CdfTableOK (cdf3 : CdfTable ℝ) :=
+  ⟨C04.shipped_v1_ok, C04.shipped_v2_ok, C04.shipped_v3_ok⟩
+
+/-- all versions: exit probabilities in [0, 1] (at most 1), strictly increasing axes -/
+theorem shipped_pexit_tables_sound :
+    PexitTableOK (pexit1 : PexitTable ℝ) ∧ PexitTableOK (pexit2 : PexitTable ℝ) ∧ PexitTableOK (pexit3 : PexitTable ℝ) :=
+  ⟨C05.shipped_v1_ok, C05.shipped_v2_ok, C05.shipped_v3_ok⟩
+
+theorem two_pow_neg50_lt : (1:ℝ) / 2 ^ 50 < 1 / 10 ^ 15 := by norm_num
+
+/-- the axis order of the shipped files is (log_e_nu, beta_rad, e_tau_frac) / (log_e_nu, beta_rad) -/
+theorem shipped_axis_order :
+    Gen.Tab1.axisNames = ["log_e_nu", "beta_rad", "e_tau_frac"] ∧ Gen.Tab2.axisNames = ["log_e_nu", "beta_rad", "e_tau_frac"]
+    ∧ Gen.Tab3.axisNames = ["log_e_nu", "beta_rad", "e_tau_frac"] :=
+  ⟨Data.t1_axisNames.1, Data.t2_axisNames.1, Data.t3_axisNames.1⟩
+
+/-! ### the bracketing row interpolation is ordinary piecewise-linear interpolation -/
+
+/-- On every non-decreasing row (plateaux allowed) and every query strictly inside the row range
+(`head < x ≤ last`), `vec_1d_interp` returns the value of the straight line through the two nodes of the unique
+bracket `xs[k] < x ≤ xs[k+1]` — i.e. ordinary piecewise-linear interpolation of (xs ↦ ys). -/
+theorem vecInterp_eq_plin (xs ys : List ℝ) (x : ℝ) (hmono : Bracket.Mono xs) (hne : xs ≠ [])
+    (hfirst : xs.head hne < x) (hlast : x ≤ xs.getLast hne) :
+    ∃ k, ∃ _ : k + 1 < xs.length, xs[k] < x ∧ x ≤ xs[k+1] ∧
+      (∀ j, ∀ _ : j + 1 < xs.length, xs[j] < x ∧ x ≤ xs[j+1] → j = k) ∧
+      vecInterp1 xs ys x = some (ys.getD k 0 + (x - xs[k]) * ((ys.getD (k+1) 0 - ys.getD k 0) / (xs[k+1] - xs[k]))) := by
+  obtain ⟨k, hk, h1, h2, hres⟩ := vecInterp1_spec xs ys x hmono hne hfirst hlast
+  refine ⟨k, hk, h1, h2, ?_, ?_⟩
+  · intro j hj hb
+    exact Bracket.bracket_unique xs x hmono j k hj hk hb ⟨h1, h2⟩
+  · rw [hres]
+    congr 1
+    unfold twoPoint
+    have hd : xs[k] - xs[k+1] ≠ 0 := by intro h; linarith
+    have hd' : xs[k+1] - xs[k] ≠ 0 := by intro h; linarith
+    field_simp
+    ring
+
+/-- row alignment of the batch: if every mask row has exactly one `true`, `np.where(mask)[1]` is the list of
+the per-row indices, in row order -/
+theorem whereCols_aligned (m : List (List Bool)) (idx : List Nat)
+    (h : List.Forall₂ (fun row k => trueIdx row = [k]) m idx) : whereCols m = idx := by
+  unfold whereCols
+  induction h with
+  | nil => rfl
+  | cons hr _ ih => simp [List.flatMap_cons, hr, ih]
+
+/-! ### slicing -/
+
+/-- slicing at an arbitrary coordinate inside the axis range gives, entry by entry, the linear blend of the two
+neighbouring sub-grids, with a weight in [0,1] -/
+theorem slice_between (g : List ℝ) (subs : List (List ℝ)) (v : ℝ) (m : Nat)
+    (hs : g.Pairwise (· < ·)) (hn : 2 ≤ g.length)
+    (h0 : g.getD 0 0 ≤ v) (h1 : v ≤ g.getD (g.length - 1) 0)
+    (hm : ∀ i, i < g.length → (subs.getD i []).length = m) :
+    ∃ lo τ, lo + 1 < g.length ∧ g.getD lo 0 ≤ v ∧ v ≤ g.getD (lo + 1) 0 ∧ 0 ≤ τ ∧ τ ≤ 1 ∧
+      τ = (v - g.getD lo 0) / (g.getD (lo + 1) 0 - g.getD lo 0) ∧
+      ∀ e, e < m → (sliceInterp g subs v)[e]? =
+        some ((1 - τ) * (subs.getD lo []).getD e 0 + τ * (subs.getD (lo + 1) []).getD e 0) := by
+  obtain ⟨b1, b2, b3⟩ := interp1dIdx_bracket g hs hn v h0 h1
+  have hlt : g.getD (interp1dIdx g v) 0 < g.getD (interp1dIdx g v + 1) 0 := by
+    rw [getD_eq _ _ (by omega), getD_eq _ _ b1]
+    exact pairwise_get_lt g hs _ _ (by omega) b1 (by omega)
+  refine ⟨interp1dIdx g v, _, b1, b2, b3, ?_, ?_, rfl, ?_⟩
+  · exact div_nonneg (by linarith) (by linarith)
+  · rw [div_le_one (by linarith)]; linarith
+  · intro e he
+    rw [sliceInterp_get g subs v m e (hm _ (by omega)) (hm _ b1) he, lerp_is_blend _ _ _ _ _ hlt]
+
+/-- slicing at a node reproduces the stored sub-grid exactly -/
+theorem slice_at_node (g : List ℝ) (subs : List (List ℝ)) (k m : Nat)
+    (hs : g.Pairwise (· < ·)) (hn : 2 ≤ g.length) (hk : k < g.length)
+    (hm : ∀ i, i < g.length → (subs.getD i []).length = m) :
+    ∀ e, e < m → (sliceInterp g subs (g.getD k 0))[e]? = some ((subs.getD k []).getD e 0) := by
+  intro e he
+  have mono : ∀ a c (hc : c < g.length), a ≤ c → g.getD a 0 ≤ g.getD c 0 := by
+    intro a c hc hac
+    rw [getD_eq _ a (by omega), getD_eq _ c hc]
+    rcases Nat.eq_or_lt_of_le hac with rfl | hlt
+    · exact le_refl _
+    · exact (pairwise_get_lt _ hs _ _ (by omega) hc hlt).le
+  obtain ⟨lo, τ, l1, l2, l3, _, _, hτ, hget⟩ := slice_between g subs (g.getD k 0) m hs hn
+    (mono 0 k hk (by omega)) (mono k _ (by omega) (by omega)) hm
+  rw [hget e he]
+  -- the bracket [g lo, g (lo+1)] contains the node g k, so k = lo or k = lo+1
+  have hklo : lo ≤ k := by
+    by_contra h
+    have : g.getD k 0 < g.getD lo 0 := by
+      rw [getD_eq _ _ hk, getD_eq _ _ (by omega)]
+      exact pairwise_get_lt g hs _ _ hk (by omega) (by omega)
+    linarith
+  have hkhi : k ≤ lo + 1 := by
+    by_contra h
+    have : g.getD (lo+1) 0 < g.getD k 0 := by
+      rw [getD_eq _ _ hk, getD_eq _ _ l1]
+      exact pairwise_get_lt g hs _ _ l1 hk (by omega)
+    linarith
+  have hlt : g.getD lo 0 < g.getD (lo + 1) 0 := by
+    rw [getD_eq _ _ (by omega), getD_eq _ _ l1]
+    exact pairwise_get_lt g hs _ _ (by omega) l1 (by omega)
+  rcases Nat.eq_or_lt_of_le hklo with rfl | hgt
+  · have : τ = 0 := by rw [hτ]; simp
+    rw [this]; simp
+  · have hk1 : k = lo + 1 := by omega
+    subst hk1
+    have : τ = 1 := by rw [hτ]; exact div_self (by intro h; linarith)
+    rw [this]; simp
+
+/-! ### non-vacuity: a row with a plateau -/
+example : vecInterp1 ([0, 1, 1, 4, 9] : List ℝ) [10, 20, 30, 40, 50] 3 = some (30 + (3 - 1) * ((40 - 30) / (4 - 1))) := by
+  have hm : Bracket.Mono ([0, 1, 1, 4, 9] : List ℝ) := by
+    intro i j hi hj hij
+    simp at hi hj
+    interval_cases i <;> interval_cases j <;> simp_all <;> norm_num
+  obtain ⟨k, hk, h1, h2, huniq, hres⟩ := vecInterp_eq_plin ([0, 1, 1, 4, 9] : List ℝ) [10, 20, 30, 40, 50] 3 hm (by simp)
+    (by simp) (by simp; norm_num)
+  have : 2 = k := huniq 2 (by simp) (by simp; norm_num)
+  subst this
+  simpa using hres
+
 end C18
